@@ -253,7 +253,7 @@ def run(ctx: Ctx):
     data = logicobl.regenerate()
     names0 = sorted(n for n, d in data.items() if 'fatal' not in d)
     covered = write_obligations(names0)
-    res = lean_phase(ctx, ['Ptx.Props.C02', 'Ptx.Props.Search', 'Ptx.Props.SearchSound', 'Ptx.Gen.ObMeasure'] + write_obligations.modules + ['Ptx.Props.Witness'], extra_targets=['Ptx.Gen.ObHintikka'])
+    res = lean_phase(ctx, ['Ptx.Props.C02', 'Ptx.Props.Search', 'Ptx.Props.SearchSound', 'Ptx.Gen.ObMeasure'] + write_obligations.modules + ['Ptx.Props.Witness', 'Ptx.Props.WitnessAll'], extra_targets=['Ptx.Gen.ObHintikka'])
     for lg, why in sorted(getattr(write_obligations, 'search_side_bad', {}).items()):
         ctx.fail(f'C02:search-side:{lg}:{why.split()[0]}', f'{lg}: the side conditions of the search-layer theorem completed_is_saturated no longer hold '
                  f'for the regenerated data ({why}); the theorem is not instantiated for this logic', dict(logic=lg, failing=why), found_input=False)
